@@ -97,7 +97,8 @@ theorem C17_dimscheck_rejects (N : Nat) (M : Option Nat) (d e : List Int) :
     (∀ m, m ≠ N → m ≠ d.length → (∀ x ∈ d, 0 ≤ x) →
         dimscheck N (some m) (some d) none = .error .reject) := dimscheck_rejects N M d e
 
-example : dimscheck 4 (some 2) (some [3, 1]) none = .ok ⟨[1, 3], some [1, 0]⟩ := by decide
+example : dimscheck 4 (some 2) (some [3, 1]) none = .ok ⟨[1, 3], some [1, 0]⟩ :=
+  dimscheck_example
 
 /-! ### row-set helpers -/
 
